@@ -29,7 +29,52 @@ def check(ctx: Ctx) -> str:
     ctx.use("runtime", "compiler", "async_utils")
     loop_twins(ctx, "R1")
     rest(ctx)
+    undeclared_visitor_rule(ctx, "R6")
     return __doc__ or ""
+
+
+# node classes at which UndeclaredNameVisitor may stop, with the reason
+UNDECLARED_STOPS = {
+    "visit_Block": "a block body is compiled as its own function, which runs find_undeclared for self / super itself; `loop` and macro specials are not visible in an unscoped block",
+}
+
+
+def undeclared_visitor_rule(ctx: Ctx, rid: str) -> None:
+    """``find_undeclared`` decides whether a loop gets a LoopContext (``loop``) and which
+    implicit parameters a macro receives (caller / kwargs / varargs).  It must
+    over-approximate: a reference it does not see is compiled against a name that is never
+    bound.  So the visitor may only *stop* at the reviewed classes; every other method has to
+    continue into all children."""
+    ctx.use("compiler")
+    repo = ctx.repo
+    ctx.rule(rid, "find_undeclared over-approximates: UndeclaredNameVisitor handles Name itself, stops only at the reviewed node classes, and any other visit_* method continues with generic_visit on every path; all callers pass whole statement lists")
+    ci = repo.cls("compiler:UndeclaredNameVisitor")
+    n = 0
+    for name, fn in sorted(ci.methods.items()):
+        if not name.startswith("visit_") or name == "visit_Name":
+            continue
+        n += 1
+        body = [s for s in fn.body if not (isinstance(s, ast.Expr) and isinstance(s.value, ast.Constant))]
+        if name in UNDECLARED_STOPS:
+            ctx.check(not body or all(isinstance(s, ast.Pass) for s in body), f"stop:{name}", f"compiler:UndeclaredNameVisitor.{name}", "reviewed stop", f"{name} is expected to be an empty stop", ci.loc(fn))
+            continue
+        top = [s for s in body if isinstance(s, (ast.Expr, ast.Return)) and s.value is not None and isinstance(s.value, ast.Call) and ast.unparse(s.value.func) in ("self.generic_visit", "super().generic_visit")]
+        ctx.check(bool(top), f"descend:{name}", f"compiler:UndeclaredNameVisitor.{name}", f"{name} does not visit all children unconditionally",
+                  f"UndeclaredNameVisitor.{name} does not call generic_visit unconditionally: references inside the skipped children (a nested loop's else branch or filter, a call block's arguments) are not seen, the enclosing loop is compiled without its LoopContext / the macro without its implicit parameter, and the name is undefined (or bound to an outer loop) at run time", ci.loc(fn))
+    vn = ci.methods.get("visit_Name")
+    ctx.need(vn is not None, "UndeclaredNameVisitor.visit_Name vanished")
+    adds = [c for c in ast.walk(vn) if isinstance(c, ast.Call) and ast.unparse(c.func) == "self.undeclared.add"]
+    ok = len(adds) == 1 and {g for g, pol in astq.guard_texts(vn, adds[0]) if pol} == {"node.ctx == 'load' and node.name in self.names"}
+    ctx.check(ok, "visit_Name:records", "compiler:UndeclaredNameVisitor.visit_Name", "records every load of a watched name", "visit_Name must record every load of a watched name, under no further condition", ci.loc(vn))
+    ctx.floor("UndeclaredNameVisitor methods besides visit_Name", n, 1)
+    # callers hand over complete bodies
+    cg = repo.cls("compiler:CodeGenerator")
+    want = {"macro_body": "node.body", "visit_Template": "node.body", "visit_For": "node.iter_child_nodes(only=('body',))"}
+    for meth, arg in want.items():
+        fn = cg.methods[meth]
+        cs = [c for c in ast.walk(fn) if isinstance(c, ast.Call) and ast.unparse(c.func) == "find_undeclared"]
+        okc = bool(cs) and any(ast.unparse(c.args[0]) in (arg, "block.body") for c in cs)
+        ctx.check(okc, f"caller:{meth}", f"compiler:CodeGenerator.{meth}", f"find_undeclared over {arg}", f"{meth} must run find_undeclared over {arg}", ci.loc(fn))
 
 
 def loop_twins(ctx: Ctx, rid: str) -> None:
